@@ -442,7 +442,17 @@ def _dict_method(eng, obj, name, args, kwargs):
         src = args[0]
         its = src.items.items() if isinstance(src, HDict) else dict(src).items()
         for k, v in its:
-            eng.set_item(obj, k, v)
+            pres = src.present[k] if isinstance(src, HDict) else True
+            if pres is True:
+                eng.set_item(obj, k, v)
+            elif pres is not False:
+                # the key exists in the source only under a condition: the store happens under that condition
+                eng.gstack.append((pres, None))
+                try:
+                    eng.set_item(obj, k, v)
+                finally:
+                    eng.gstack.pop()
+                eng.version += 1
         return None
     if name == "setdefault":
         k = eng.concrete_key(args[0])
